@@ -2,13 +2,13 @@
 # usage: try_mutation.sh <patch.diff> <CID> [<CID> ...]   -- applies a seeded change to /repo, runs the checks, undoes it
 patch=$1; shift
 cd /verif
-git -C /repo apply "$patch" || { echo "patch does not apply"; exit 2; }
+git -C /repo apply "$(readlink -f "$patch")" || { echo "patch does not apply"; exit 2; }
 for cid in "$@"; do
   echo "--- $cid"
-  VERIF_ALLOW_MISSING=1 python3 scripts/check.py $cid --tier quick 2>&1 | tail -4
+  VERIF_EVIDENCE_SUFFIX=.mut VERIF_ALLOW_MISSING=1 python3 scripts/check.py $cid --tier quick 2>&1 | tail -4
   python3 - <<PY
 import json
-ev=json.load(open('/verif/evidence/$cid.json'))
+ev=json.load(open('/verif/evidence/$cid.mut.json'))
 c=ev['coverage']
 print('  obligations',c['obligations'],'discharged',c['discharged'],'mismatches',c['correspondence'].get('mismatches_in_projection'),'monitor_failures',c['correspondence'].get('monitor_failures'))
 print('  broken:',[ (o['name'][:60],o.get('detail','')[:200]) for o in c['obligation_list'] if not o['discharged']])
